@@ -10,9 +10,11 @@ Oracle: the property statement evaluated directly, in exact `Fraction` arithmeti
 request hands the driver coerce(transform(value)); every value a sequence writes comes from an accepted request).
 """
 import asyncio
+import heapq
 import json
 import logging
 import math
+import signal
 from fractions import Fraction
 
 from harness import vloop
@@ -24,6 +26,61 @@ BIG_DRAIN_MS = 200001
 NUM_TW = ['MUL($, 2)', 'ADD($, 0.5)', 'SUB(10, $)', 'DIV($, 4)', 'DIV(1, $)', 'FLOOR($)', 'MUL($, 0.1)',
           'IF(GT($, 5), 1, 0)', 'ABS($)', '$', 'NOT($)', 'MOD($, 3)', 'IF(GT($, 5), unavailable, $)', 'MUL($, -1.5)']
 BOOL_TW = ['NOT($)', '$', 'IF($, 0, 1)', 'MUL($, 2)', 'IF($, unavailable, false)', 'SUB($, 1)', 'SUB(0.5, $)']
+
+
+class Stalled(BaseException):
+    """A case exceeded its hard bound (event-loop iterations, virtual time or wall clock)."""
+
+
+class WatchedLoop(vloop.VirtualLoop):
+    """The shared virtual-time loop plus a per-case watchdog: a case that keeps the loop turning (a task polling in
+    virtual time for something that never happens) or runs too far into virtual time is aborted, never left to hang."""
+
+    def __init__(self):
+        super().__init__()
+        self.verif_iterations_left = None
+        self.verif_vt_limit = None
+
+    def watch(self, iterations, virtual_seconds):
+        self.verif_iterations_left = iterations
+        self.verif_vt_limit = self.time() + virtual_seconds
+
+    def unwatch(self):
+        self.verif_iterations_left = None
+
+    def rewind(self):
+        """Between two cases, when no timer is pending, restart the virtual clock at 0. The clock must stay small: a
+        timer fires when `when < now + clock_resolution` (1e-9 s), which float rounding defeats once the clock is beyond
+        ~2e6 s (ulp 4.7e-10): the loop then polls for ever for a timer that is 'not yet' due (found in a thorough run:
+        10 000 cases x ~205 virtual seconds per worker)."""
+        if not self._scheduled and not self._ready:
+            self._vt = 0.0
+            self._sync()
+            return True
+        return False
+
+    def _run_once(self):
+        if self.verif_iterations_left is not None:
+            self.verif_iterations_left -= 1
+            if self.verif_iterations_left < 0:
+                self.verif_iterations_left = None
+                raise Stalled('more than the allowed number of event-loop iterations')
+            if self.time() > self.verif_vt_limit:
+                self.verif_iterations_left = None
+                raise Stalled('more than the allowed virtual time')
+            while self._scheduled and self._scheduled[0]._cancelled:
+                h = heapq.heappop(self._scheduled)
+                h._scheduled = False
+            if not self._ready and not self._scheduled and not self._stopping:
+                # nothing can ever wake the loop up again: select() would block for ever
+                self.verif_iterations_left = None
+                raise Stalled('nothing left to run while a request is still waiting (deadlock)')
+        super()._run_once()
+
+
+CASE_LOOP_ITERATIONS = 50000        # a case needs a few hundred
+CASE_VIRTUAL_SECONDS = 3600         # a case lasts about 200 virtual seconds (the final drain)
+CASE_WALL_SECONDS = 120
 
 
 class FakeRequest:
@@ -261,7 +318,9 @@ class C05(Prop):
     # ---------------------------------------------------------------- life-cycle
     def setup(self):
         logging.disable(logging.CRITICAL)
-        self.loop = vloop.new_loop()
+        self.loop = WatchedLoop()
+        asyncio.set_event_loop(self.loop)
+        self.stalls = 0
         from qtoggleserver.conf import settings
         settings.persist.driver = 'qtoggleserver.drivers.persist.JSONDriver'
         settings.persist.file_path = None
@@ -1083,6 +1142,44 @@ class C05(Prop):
                 out.append(ask(op, f'advance {op[1]}'))
         return out
 
+    @staticmethod
+    def _on_alarm(signum, frame):
+        raise Stalled(f'more than {CASE_WALL_SECONDS} s of wall clock')
+
+    def _run_bounded(self, coro):
+        """Run the real side of a case under the watchdog. A stalled case is cancelled (its clean-up still runs, bounded
+        too) and reported; after three stalls the worker gives up rather than work on a polluted hub."""
+        if self.loop.rewind():
+            self.rewinds = getattr(self, 'rewinds', 0) + 1
+        task = self.loop.create_task(coro)
+        old_alarm = signal.signal(signal.SIGALRM, self._on_alarm)
+        signal.setitimer(signal.ITIMER_REAL, CASE_WALL_SECONDS, 5)
+        self.loop.watch(CASE_LOOP_ITERATIONS, CASE_VIRTUAL_SECONDS)
+        try:
+            res = self.loop.run_until_complete(task)
+            self.max_iterations = max(getattr(self, 'max_iterations', 0), CASE_LOOP_ITERATIONS - self.loop.verif_iterations_left)
+            return res
+        except Stalled as e:
+            self.stalls += 1
+            stalled = e
+        finally:
+            self.loop.unwatch()
+            signal.setitimer(signal.ITIMER_REAL, 0)
+            signal.signal(signal.SIGALRM, old_alarm)
+        # abort the case: cancel its task and let the cancellation and the port removal run, bounded again
+        task.cancel()
+        self.loop.watch(20000, 60)
+        try:
+            self.loop.run_until_complete(asyncio.gather(task, return_exceptions=True))
+        except Stalled:
+            pass
+        finally:
+            self.loop.unwatch()
+        if self.stalls >= 3:
+            from harness.core import Broken
+            raise Broken(f'three cases stalled in this worker, last: {stalled}')
+        return stalled
+
     def _parse_body(self, text):
         try:
             return (True, self.json_utils.loads(text))
@@ -1103,8 +1200,18 @@ class C05(Prop):
                 parsed_ops.append((op, [self._parse_body(t) for _, t in op[1]]))
             else:
                 parsed_ops.append((op, None))
-        real = self.loop.run_until_complete(self._real(case, parsed_ops))
-        model = self._model(case, parsed_ops, real, driver)
+        real = self._run_bounded(self._real(case, parsed_ops))
+        if isinstance(real, Stalled):
+            return (Failure('correspondence', f'the case did not complete on the real code: {real} (a request or the final '
+                            f'drain never finished); the model answers every request', real=str(real)),
+                    {'tags': ['stalled'], 'key': None, 'observed': str(real)})
+        old_alarm = signal.signal(signal.SIGALRM, self._on_alarm)
+        signal.setitimer(signal.ITIMER_REAL, CASE_WALL_SECONDS, 5)
+        try:
+            model = self._model(case, parsed_ops, real, driver)
+        finally:
+            signal.setitimer(signal.ITIMER_REAL, 0)
+            signal.signal(signal.SIGALRM, old_alarm)
 
         strict = bool(case.get('strict_text'))
         tags = set()
